@@ -274,7 +274,8 @@ func (c *conn) Set(ctx context.Context, r *gpb.SetRequest) (*gpb.SetResponse, er
 	}
 	for _, del := range req.Deletes {
 		for p := range st {
-			if strings.HasPrefix(p, del) {
+			// gNMI delete: the addressed node and everything below it at path-element boundaries
+			if strings.HasPrefix(p, del) && (len(p) == len(del) || p[len(del)] == '/' || p[len(del)] == '[') {
 				delete(st, p)
 			}
 		}
